@@ -86,6 +86,40 @@ Theorem c01_holds_when_fresh : forall w folder rs p clk,
 Proof. exact c01_holds_when_fresh_l. Qed.
 Print Assumptions c01_holds_when_fresh.
 
+(** ---- the blob-table write fails ---------------------------------------------------
+    [p_blob_fail p = true]: while the message is stored, writes to shared.db's
+    blobs table fail (lock held longer than the busy timeout, I/O fault) and
+    everything else works.  The store step keeps an out-of-line part INLINE then. *)
+
+(** where the octets are: never nowhere; in blobs exactly when the write worked *)
+Theorem c01_blob_failure_kept_inline : forall id p np,
+  m_lost (stored_rec id p np) = 0%nat /\
+  m_blob (stored_rec id p np) = if p_blob_fail p then 0%nat else p_big p.
+Proof. exact stored_rec_places. Qed.
+Print Assumptions c01_blob_failure_kept_inline.
+
+(** the per-recipient promise covers that branch: also when the blob write
+    fails, a 2xx position has its message with every part's octets
+    ([holds_submission] demands [m_lost = 0]) *)
+Theorem c01_promise_under_blob_failure : forall roles h folder rs p clk,
+  p_blob_fail p = true ->
+  classify (wrun h (w0 roles)) folder rs p clk = None ->
+  spec_C01 (wrun h (w0 roles)) folder rs p clk.
+Proof. intros roles h folder rs p clk _. apply c01_after_every_history_l. Qed.
+Print Assumptions c01_promise_under_blob_failure.
+
+(** regression (seeded C01-3): clearing the inline copy before knowing that the
+    blob row exists leaves the octets of every out-of-line part nowhere *)
+Theorem c01_clear_before_blob_known_loses : forall id p np,
+  p_blob_fail p = true ->
+  m_lost (stored_rec_gen true id p np) = p_big p /\ m_blob (stored_rec_gen true id p np) = 0%nat.
+Proof. exact clear_first_loses. Qed.
+Print Assumptions c01_clear_before_blob_known_loses.
+Example c01_clear_before_blob_known_example :
+  let p := mkParsed true false 5 (MultiB 3) 2 true in
+  m_lost (stored_rec 7 p 4) = 0%nat /\ m_blob (stored_rec 7 p 4) = 0%nat /\ m_lost (stored_rec_gen true 7 p 4) = 2%nat.
+Proof. vm_compute. repeat split. Qed.
+
 (** ---- every configuration ---------------------------------------------------------
     [handle_data c over_quota w rs p size clk]: handleDATA under configuration
     [c] (default folder, max_size, quota_enabled); [over_quota r] = "CheckRecipientQuota
